@@ -88,24 +88,36 @@ func (r *Run) unguardedErrorSites(f *ssa.Function) []unguarded {
 				}
 			}
 			// can a success return be reached from the call without crossing ok(call)?
-			seen := map[*ssa.BasicBlock]bool{}
-			var dfs func(x *ssa.BasicBlock) bool
-			dfs = func(x *ssa.BasicBlock) bool {
+			// (the walk remembers how it arrived, so that a test of a merged value — `err = phi(...)` tested after the
+			// join — is crossed only in the direction the value arriving on that way allows)
+			seen := map[[3]*ssa.BasicBlock]bool{}
+			var dfs func(path []*ssa.BasicBlock) bool
+			dfs = func(path []*ssa.BasicBlock) bool {
+				x := path[len(path)-1]
 				if succRet[x] && !propagates[x] {
 					return true
 				}
 				for _, s := range x.Succs {
-					if !ff.IsLiveEdge(x, s) || isOK(x, s) || seen[s] {
+					if !ff.IsLiveEdge(x, s) || isOK(x, s) || !ff.PathFeasible(path, s) {
 						continue
 					}
-					seen[s] = true
-					if dfs(s) {
+					var k [3]*ssa.BasicBlock
+					k[0] = s
+					k[1] = x
+					if len(path) >= 2 {
+						k[2] = path[len(path)-2]
+					}
+					if seen[k] {
+						continue
+					}
+					seen[k] = true
+					if dfs(append(path[:len(path):len(path)], s)) {
 						return true
 					}
 				}
 				return false
 			}
-			if !dfs(b) {
+			if !dfs([]*ssa.BasicBlock{b}) {
 				continue
 			}
 			key, _, _ := r.P.CalleeKey(c.Common())
